@@ -20,6 +20,7 @@ func init() {
 	register("c04loop", opC04Loop)
 	register("c04grid", opC04Grid)
 	register("c04tile", opC04Tile)
+	recorders["c04origin"] = recC04Origin
 }
 
 // c04Path is one way of evaluating point containment of the same region.
@@ -531,4 +532,24 @@ func opC04Tile(raw json.RawMessage, o *Out) {
 			o.Fail("c04tile/exactly-once", "%s is contained in %d members %v of the tiling: %s", pt.what, count, who, desc)
 		}
 	}
+}
+
+// recC04Origin prints, for every grid level 1..8, the face and the (i,j) of the cell that
+// contains S2's fixed reference point OriginPoint(), as one JSON object.  The driver passes it
+// to Gen_Grid (constants OI, OJ) so that regions can be placed around the point from which
+// Loop and Polygon count crossings.  The cell is found from the real point; the (i,j) decoding
+// is the table-driven one of package emb.
+func recC04Origin(args []string) {
+	leaf := s2.CellFromPoint(s2.OriginPoint()).ID()
+	out := map[string]any{"face": int(uint64(leaf) >> 61)}
+	levels := map[string][2]int{}
+	for g := 1; g <= 8; g++ {
+		// the ancestor at level g by bit arithmetic on the id
+		path := emb.RawPath(leaf)[:g]
+		i, j, _ := emb.IJ(emb.RawID(int(uint64(leaf)>>61), path))
+		levels[fmt.Sprint(g)] = [2]int{i, j}
+	}
+	out["ij"] = levels
+	b, _ := json.Marshal(out)
+	fmt.Println(string(b))
 }
